@@ -23,7 +23,19 @@ func TestMain(m *testing.M) { rt.Main(m) }
 func checkValue(v uint64, prefix []byte, scratch []byte) error {
 	want := ref.VarintEncode(v)
 	dst := append(scratch[:0], prefix...)
+	// what lies in the destination's spare capacity BEHIND the bytes that get appended is the caller's and stays as it is
+	full := scratch[:cap(scratch)]
+	for i := len(prefix); i < len(full); i++ {
+		full[i] = 0xB0 + byte(i)
+	}
 	got := quicwire.AppendVarint(dst, v)
+	if len(got) <= cap(scratch) && len(got) > 0 && &got[0] == &full[0] {
+		for i := len(got); i < len(full); i++ {
+			if full[i] != 0xB0+byte(i) {
+				return fmt.Errorf("SIG=C19/append-writes-behind AppendVarint(%x, %d) changed byte %d of the destination's capacity, %d bytes behind the encoding it appended", prefix, v, i, i-len(got))
+			}
+		}
+	}
 	if len(got) != len(prefix)+len(want) || !bytes.Equal(got[:len(prefix)], prefix) || !bytes.Equal(got[len(prefix):], want) {
 		return fmt.Errorf("SIG=C19/append AppendVarint(%x, %d) = %x, want %x||%x", prefix, v, got, prefix, want)
 	}
@@ -373,6 +385,50 @@ func TestFixedInts(t *testing.T) {
 			t.Fatalf("SIG=C19/u64 ConsumeUint64(%x) = (%d,%d)", b, v64, n64)
 		}
 		s.Sample(func() any { return rt.Hex(b) })
+	})
+}
+
+// TestInPlaceFraming: the payload already lies in the destination's spare capacity, right behind where its length prefix
+// will go (framing a message in place); Append*Bytes must produce prefix || payload all the same.
+func TestInPlaceFraming(t *testing.T) {
+	s := rt.S("in-place-framing").SetRule("AppendUint8Bytes / AppendVarintBytes where the payload slice aliases the destination's spare capacity at the offset it will be copied to (and at drawn other offsets, overlapping or not); oracle: result == prefix || length || payload-as-it-was; non-trivial = every case; distinct by (payload, offsets)")
+	rt.Check(t, 3000, 100000, func(t *rapid.T) {
+		payload := gen.Bytes(t, 0, 120, "payload")
+		prefix := gen.Bytes(t, 0, 6, "prefix")
+		hdr := ref.VarintLen(uint64(len(payload)))
+		// 0 = exactly where it will land; > 0 = further back (overlapping its landing zone or not). A payload that starts
+		// INSIDE the bytes where the length prefix is written is the caller's mistake and not generated.
+		shift := gen.Pick(t, []int{0, 0, 1, 2, 3, 8, 40}, "shift")
+		s.Eval()
+		s.Nontrivial(payload, prefix, []byte{byte(shift + 1)})
+		for _, u8 := range []bool{true, false} {
+			h := hdr
+			if u8 {
+				h = 1
+			}
+			off := len(prefix) + h + shift
+			if off < len(prefix) {
+				off = len(prefix)
+			}
+			buf := make([]byte, off+len(payload)+64)
+			copy(buf, prefix)
+			copy(buf[off:], payload)
+			v := buf[off : off+len(payload)]
+			var got, want []byte
+			if u8 {
+				want = append(append(append([]byte{}, prefix...), byte(len(payload))), payload...)
+				got = quicwire.AppendUint8Bytes(buf[:len(prefix)], v)
+			} else {
+				want = append(append(append([]byte{}, prefix...), ref.VarintEncode(uint64(len(payload)))...), payload...)
+				got = quicwire.AppendVarintBytes(buf[:len(prefix)], v)
+			}
+			if !bytes.Equal(got, want) {
+				t.Fatalf("SIG=C19/in-place-framing uint8=%v shift=%d: payload aliasing the destination's spare capacity gives %x, want %x", u8, shift, got, want)
+			}
+		}
+		s.Sample(func() any {
+			return map[string]any{"payload_len": len(payload), "prefix_len": len(prefix), "shift": shift}
+		})
 	})
 }
 
